@@ -10,10 +10,14 @@ class C04(Property):
     theorem_modules = ['RosuModel.Props.C04All', 'RosuModel.Props.C04Ieee', 'RosuModel.Props.C04DecodedIeee', 'RosuModel.Props.C04DecodedObjects', 'RosuModel.Props.C04DecodedObjectsToy',
                        'RosuModel.Props.C04DecodedObjectsIeee', ('RosuModel.Lemmas.DecodedObjInv', 'Rosu.DecodedObj'),
                        'RosuModel.Props.C04DecodedObjectsIeee2', 'RosuModel.Props.C04DecodedPaths', 'RosuModel.Props.C04DecodedPathsIeee', ('RosuModel.Lemmas.DecodedPathInv', 'Rosu.DecodedPath'),
-                       'RosuModel.Props.C04DecodedTiming', 'RosuModel.Props.C04DecodedTimingToy', 'RosuModel.Props.C04DecodedTimingIeee', 'RosuModel.Props.C04DecodedTimingEvents']   # files whose top-level theorems are all audited
+                       'RosuModel.Props.C04DecodedTiming', 'RosuModel.Props.C04DecodedTimingToy', 'RosuModel.Props.C04DecodedTimingIeee', 'RosuModel.Props.C04DecodedTimingEvents', 'RosuModel.Props.C04DecodedTimingUpper', 'RosuModel.Props.C04DecodedTimingOrder']   # files whose top-level theorems are all audited
     namespace = "Rosu.C04"
     design_ref = "5.4"
     required_theorems = [
+        "span_nonneg_float", "dist_finite_of_end", "sliderTailOk_of_upper", "upper_needs_sign", "sliderTimes_upper_float_partial", "sliderTimes_upper_float_catmull_partial",
+        "sliderTimes_upper_float_no_catmull", "sliderTimes_upper_statement_of_dist", "objEnds_iff_upper", "collectedTimes_upper_float_partial", "decoded_repTimingMap_ieee_upper_partial",
+        "timing_lines_accepted_decoded_ieee_upper_partial", "timing_lines_accepted_decoded_ieee_upper_catmull_partial", "evU_accepted", "evOverU_not_collectedTimes",
+        "sliderTailOk_of_tail", "sliderTail_spans_not_of_tail", "sliderTail_witness",
         "collect_mono", "sliderEventList_events", "collectObject_slider_times", "sliderTimes_of_nodeTimes", "nodeTime_inLimit_float", "sliderTimes_osu_catch_float",
         "collectedTimes_all_modes_float", "decoded_repTimingMap_ieee_ends", "timing_lines_accepted_decoded_ieee_ends", "ev_accepted", "evCatch_accepted", "evOver_not_collectedTimes",
         "ctrlLaws_float", "duration_drifts_float", "end_time_over_limit_float", "durLawsOn_float", "hitobjects_block_accepted_decoded_ieee", "decoded_spinners_representable_ieee_int",
@@ -40,6 +44,13 @@ class C04(Property):
                          "constFactsB_float", "constFacts_float", "parser_calls_keep_decoded_inv_float", "decoded_inv_float", "decoded_map_inv_float",
                          "decoded_records_representable_float"]
     partial_theorems = {
+        "sliderTimes_upper_float_partial / sliderTailOk_of_tail": "Props/C04DecodedTimingUpper.lean, Props/C04DecodedTimingOrder.lean (sixth session, wave 7): the slider hypothesis of the timing clause reduced to UPPER bounds. "
+            "span_nonneg_float (the sign of D = (n·d/v)/n carried through three roundings), dist_finite_of_end (the end clause already excludes a NaN / infinite curve length), sliderTailOk_of_upper (0 ≤ D and "
+            "finiteness of tail and span ends follow: −∞ excluded) give sliderTimes_upper_float_partial: `sliderTimes_upper_statement` under `C01.DistOk m.hitObjects` (no computed curve length is negative) — a "
+            "theorem for every decoded slider except osu!-path-mode Catmull sliders (sliderTimes_upper_float_no_catmull: unconditional there; …_catmull_partial under C01.CatmullSurplusOk); "
+            "sliderTimes_upper_statement_of_dist reduces the full statement to the open C01 statement decoded_dist_nonneg_statement Float Float32. upper_needs_sign: the sign cannot be dropped (A = 0, "
+            "d = −2147483647, v = 13, n = 13: all upper bounds hold, the tail is one ulp below −limit). sliderTailOk_of_tail: for D ≥ 2^-16 the bound on every span end follows from the bound on the tail; "
+            "sliderTail_spans_not_of_tail: without a lower bound on D it does not (n = 2^29+1, the tail equals the parse limit and the span end for k = n−2 is above it) — from C20's repeat_le_tail decided false",
         "collectedTimes_all_modes_float / timing_lines_accepted_decoded_ieee_ends": "Props/C04DecodedTimingEvents.lean (sixth session, wave 6): the residual `CollectedTimesInLimit` of the timing clause is DERIVED from "
             "conditions on the decoded objects' computed end times, in all four modes on IEEE doubles: sliderEventList_events (no fuel hypothesis) + collectObject_slider_times (only head / repeat / tail events "
             "contribute sample times, each a NodeTime of the slider) + nodeTime_inLimit_float (head ≤ every span end ≤ bound) give sliderTimes_osu_catch_float; spinners / holds through end_time_lower_float; hence "
